@@ -5,12 +5,15 @@ import (
 	"math/big"
 	"strconv"
 	"strings"
+	"time"
 
 	"free5gclib/nas/security"
 	stgutg "stgutgp"
 	"tglib"
 
 	"vh/fw"
+	"vh/procdrv"
+	"vh/refamf"
 )
 
 // C16 — distinct UE identities derived from the configured IMSI.
@@ -22,7 +25,7 @@ func init() {
 		Level: "exploration",
 		Rule: "case = (initial IMSI of 14/15 digits with 2- or 3-digit MNC, population N in {1,2,3,10,100,1000,10000} that the MSIN can accommodate, K, OP, OPc); two cases in five place the initial MSIN so that the population walks across a 10^j carry, j cycling through 1..MSIN length-1 by case index; one case in six makes the numeric value of the IMSI walk across a multiple of 2^31 / 2^32 / 2^33 / 2^40 / 2^48 inside a population of up to 10000; " +
 			"every case creates N UEs with stgutg.CreateUE and checks pairwise distinct SUPI / RAN-UE-NGAP-ID, PLMN prefix and digit count, credentials; " +
-			"one case in eight instead sweeps all 16 (NEA,NIA) pairs through NewRanUeContext+GetUESecurityCapability. distinct = hash(IMSI,N); non-trivial = N>=2 or capability sweep",
+			"one case in eighty runs the emulator PROCESS (test mode, 2..4 registrations, initial MSIN placed on a 10^j carry) against the reference AMF, which checks RAN-UE-NGAP-IDs and SUCIs of the Initial UE Messages; one case in eight instead sweeps all 16 (NEA,NIA) pairs through NewRanUeContext+GetUESecurityCapability. distinct = hash(IMSI,N); non-trivial = N>=2 or capability sweep",
 		Assumptions: []string{"SUPI text form is imsi-<digits>", "population is bounded by 10 000 as the property says"},
 		N: func(t string) int {
 			if t == "thorough" {
@@ -31,12 +34,66 @@ func init() {
 			return 2400
 		},
 		Batch: 50,
+		Stall: 120 * time.Second,
 		Run:   runC16,
 	})
 }
 
+// runC16Main: the identities as the emulator PROCESS produces them (main() creates the UEs): test mode with N registrations
+// against the reference AMF, which requires of every Initial UE Message a RAN-UE-NGAP-ID not seen before and a SUCI that is
+// the null-scheme encoding, in the configured PLMN and with the configured number of digits, of initial IMSI + index.
+// The initial MSIN is placed so that the small population crosses a 10^j carry (j by case index) or a 2^p boundary.
+func runC16Main(c *fw.Case) (o fw.Outcome) {
+	r := c.R
+	cfg := genEmuConfig(r)
+	n := 2 + r.Intn(3)
+	mncLen := len(cfg.MNC)
+	msinLen := len(cfg.IMSI) - 3 - mncLen
+	limit := int64(1)
+	for i := 0; i < msinLen; i++ {
+		limit *= 10
+	}
+	k := c.Idx / 80
+	j := 1 + k%(msinLen-1)
+	p10 := int64(1)
+	for i := 0; i < j; i++ {
+		p10 *= 10
+	}
+	back := int64(r.Intn(n - 1))
+	msin := (r.Int63n(limit/p10)+1)*p10 - 1 - back
+	if k%4 == 3 || msin < 0 || msin+int64(n) > limit {
+		msin = p10 - 1 - back // the lowest carry of that order: leading zeros in front of it
+	}
+	if msin < 0 || msin+int64(n) > limit {
+		msin = limit - int64(n)
+	}
+	cfg.IMSI = cfg.MCC + cfg.MNC + fmt.Sprintf("%0*d", msinLen, msin)
+	cfg.Reg, cfg.Pdu, cfg.Svc, cfg.Rel, cfg.Dereg = n, 0, 0, 0, 0
+	cfg.UeNumber = n
+	ch := genChoices(r, n)
+	o.Tag("emulator-process", fmt.Sprintf("process-carry-10^%d", j), fmt.Sprintf("mnc%d", mncLen))
+	o.Input = fmt.Sprintf("emulator process, test mode, %d registrations from initial IMSI %s (MSIN %d digits, carry of order 10^%d inside the population); config=%s", n, cfg.IMSI, msinLen, j, cfgSummary(cfg))
+	o.Digest, o.Nontrivial = fw.HashS("c16-main", cfg.IMSI, fmt.Sprint(n)), true
+	res := procdrv.Run(workDir(), emuPath(), procdrv.Spec{Cfg: cfg, Choices: ch, Fault: refamf.Fault{At: -1}, Args: []string{"-t"}, Watchdog: 20*time.Second + 3*nominalDuration(cfg),
+		KillWhen: func(a *refamf.AMF) bool { return a.NViolations() > 0 }}) // an identity the AMF refuses ends the run at once
+	judgeRun(&o, res, true)
+	if o.Failed() || o.Verdict == fw.Inconclusive {
+		return
+	}
+	if res.AMF.RegDone != n {
+		o.Fail("registrations-missing", "%d registration(s) completed at the AMF, %d configured\n conversation:%s", res.AMF.RegDone, n, conversationSummary(res.AMF, 60))
+		return
+	}
+	o.Count("process_populations", 1)
+	o.Count("process_ues_identified", int64(n))
+	return
+}
+
 func runC16(c *fw.Case) (o fw.Outcome) {
 	r := c.R
+	if c.Idx%80 == 39 {
+		return runC16Main(c)
+	}
 	if c.Idx%8 == 7 {
 		return runC16Caps(c)
 	}
